@@ -185,7 +185,7 @@ int main(int argc, char** argv) {
       auto mismatch2 = [&](const std::vector<uint16_t>& h, uint16_t op, const std::string& got, const std::string&) {
         violation("c14:" + got.substr(4), fmt("{\"config\":{\"syncPeriod\":%u,\"initialPeriod\":%u,\"timeoutMs\":%u,\"wiring\":\"%s\",\"startMillis\":%lu},\"events(loop calls)\":%s}", cfg.sync, cfg.init, cfg.timeout, WN[wiring], cfg.start, jstr(hist2(h, op)).c_str()));
       };
-      McStats s2 = explore<World, Cfg, Ev>(cfg, coarse, a.thorough ? 5000 : 600, expected, mismatch2, before, a.thorough ? 3000000 : 200000);
+      McStats s2 = explore<World, Cfg, Ev>(cfg, coarse, a.thorough ? 3000 : 600, expected, mismatch2, before, a.thorough ? 1500000 : 200000);
       c.add("coarse_states", s2.states); c.add("coarse_transitions", s2.transitions); c.add("executions", s2.executions);
       c.add(s2.fixpoint ? "coarse_configs_to_fixpoint" : "coarse_configs_cut");
       if (s2.max_depth + 1 > c.c["max_coarse_depth"]) c.c["max_coarse_depth"] = s2.max_depth + 1;
